@@ -591,6 +591,14 @@ func (s *vSim) install() func() {
 	}
 }
 
+// vSlowLog: a log handler at level Debug whose every record takes d to get rid of (no lock held meanwhile).
+type vSlowLog struct{ d time.Duration }
+
+func (h vSlowLog) Enabled(context.Context, slog.Level) bool  { return true }
+func (h vSlowLog) Handle(context.Context, slog.Record) error { time.Sleep(h.d); return nil }
+func (h vSlowLog) WithAttrs([]slog.Attr) slog.Handler        { return h }
+func (h vSlowLog) WithGroup(string) slog.Handler             { return h }
+
 // ---- scenario steps ----
 
 func vDur(v any) time.Duration { return time.Duration(vInt(v)) }
@@ -919,6 +927,11 @@ func vRunScenario(t *testing.T, sc map[string]any) map[string]any {
 		defer restore()
 		s.router = NewRouter(s.statePath)
 		vWritePages(1)
+		if d := vDur(sc["slow_log_ns"]); d > 0 {
+			// the log sink is slow (a pipe to a collector that is behind) and the level is Debug: every log call takes a
+			// moment, during which other goroutines run
+			slog.SetDefault(slog.New(vSlowLog{d}))
+		}
 		stepN := 0
 		for _, st := range vList(sc["steps"]) {
 			c := st.(map[string]any)
